@@ -13,8 +13,9 @@ Qed.
 Lemma poll_is_run : forall cfg fuel s c s' ls, poll cfg fuel s c = (s', ls) -> run cfg s ls = Some s'.
 Proof.
   intros cfg fuel. induction fuel as [|f IH]; intros s c s' ls H; cbn [poll] in H; [inv H; reflexivity|].
-  destruct (next cfg s (match outq (cs s c) with [] => Recv c | _ :: _ => Route c end)) as [s1|] eqn:En; [|inv H; reflexivity].
-  destruct (poll cfg f s1 c) as [s2 ls2] eqn:Ep. inv H. cbn [run]. rewrite En. eapply IH; eauto.
+  destruct (next cfg s (match outq (cs s c) with [] => Recv c | _ :: _ => Route c end)) as [s1|] eqn:En.
+  - destruct (poll cfg f s1 c) as [s2 ls2] eqn:Ep. inv H. cbn [run]. rewrite En. eapply IH; eauto.
+  - destruct (next cfg s (Wait c)) as [s1|] eqn:Ew; inv H; cbn [run]; [rewrite Ew|]; reflexivity.
 Qed.
 
 Lemma run_labels_is_run : forall cfg ls s s' done, run_labels cfg s ls = (s', done) -> run cfg s done = Some s'.
